@@ -5,6 +5,7 @@ import (
 	"go/constant"
 	"go/token"
 	"go/types"
+	"os"
 
 	"golang.org/x/tools/go/ssa"
 
@@ -62,24 +63,24 @@ type c03Latch struct {
 
 // c03Latches finds `len(x) > 0`-style comparisons (and x != nil) on lists of type typ in fn; length
 // comparisons against something that is not a recognised constant are returned as odd.
-func c03Latches(fn *ssa.Function, typ types.Type) (out []c03Latch, odd []*ssa.BinOp) {
+func c03Latches(fn *ssa.Function, typ types.Type) (out []c03Latch, odd []c03Latch) {
 	for _, in := range an.Instrs(fn, false) {
 		bin, ok := in.(*ssa.BinOp)
 		if !ok || !c03IsCmp(bin.Op) {
 			continue
 		}
 		x, y, op := bin.X, bin.Y, bin.Op
-		if arg := c03LenArg(y); arg != nil || (types.Identical(y.Type(), typ) && !an.IsNilConst(y)) {
+		if arg := c03LenArg(y); arg != nil || (c03SameType(y.Type(), typ) && !an.IsNilConst(y)) {
 			x, y, op = y, x, c03Flip(op)
 		}
 		if arg := c03LenArg(x); arg != nil {
-			if !types.Identical(arg.Type(), typ) {
+			if !c03SameType(arg.Type(), typ) {
 				continue
 			}
 			n, isC := an.ConstInt(y)
 			if !isC {
 				if _, isT := c03Threshold(y); !isT {
-					odd = append(odd, bin)
+					odd = append(odd, c03Latch{bin: bin, x: arg})
 				}
 				continue
 			}
@@ -89,11 +90,11 @@ func c03Latches(fn *ssa.Function, typ types.Type) (out []c03Latch, odd []*ssa.Bi
 			case (op == token.EQL || op == token.LEQ) && n == 0, op == token.LSS && n == 1:
 				out = append(out, c03Latch{bin: bin, x: arg, decided: false})
 			default:
-				odd = append(odd, bin)
+				odd = append(odd, c03Latch{bin: bin, x: arg})
 			}
 			continue
 		}
-		if types.Identical(x.Type(), typ) && an.IsNilConst(y) {
+		if c03SameType(x.Type(), typ) && an.IsNilConst(y) {
 			switch op {
 			case token.NEQ:
 				out = append(out, c03Latch{bin: bin, x: x, decided: true})
@@ -108,9 +109,6 @@ func c03Latches(fn *ssa.Function, typ types.Type) (out []c03Latch, odd []*ssa.Bi
 // cuts: the latch comparison is evaluated on every path to sink s (of activation sfr), and once it says
 // "decided" the sink cannot be reached without evaluating it again.
 func (l c03Latch) cuts(r *c03Run, sfr *c03Frame, s ssa.Instruction) (good bool, unsure bool, why string) {
-	if !c03IsAncestor(l.fr, sfr) {
-		return false, true, "the decided-test is not evaluated on the call chain leading to it"
-	}
 	if !r.dominatesPt(l.fr, l.bin, sfr, s) {
 		return false, true, "the decided-test does not dominate it"
 	}
@@ -223,7 +221,7 @@ func c03LoopOf(fn *ssa.Function, header *ssa.BasicBlock) *an.Loop {
 // function literals it calls (entered at their call sites, left into the calling activation).
 type c03Flow struct {
 	r       *c03Run
-	cell    *ssa.Alloc
+	cell    *c03Cell
 	q       ssa.Value // the value the variable should hold
 	qfr     *c03Frame
 	targets map[ssa.Instruction]bool
@@ -299,6 +297,9 @@ func (f *c03Flow) run(fr *c03Frame, b *ssa.BasicBlock, i int, s int) {
 					s = 1
 				} else {
 					s = 2
+				}
+				if os.Getenv("C03DEBUG") != "" {
+					fmt.Fprintf(os.Stderr, "c03: flow store in %s: %s -> state %d\n", fr.fn.Name(), x.String(), s)
 				}
 			}
 		case *ssa.Return:
@@ -376,7 +377,7 @@ func (f *c03Flow) verdict() int {
 // c03CellHolds: the latch is the captured variable `cell`. On every path from the Decide call dc (of
 // activation dfr) to the next load of the cell by a latch comparison, the last assignment of the cell is
 // the qcommit q.
-func c03CellHolds(r *c03Run, cell *ssa.Alloc, tests map[ssa.Instruction]bool, dfr *c03Frame, dc ssa.CallInstruction, q ssa.Value) (good, unsure bool, why string) {
+func c03CellHolds(r *c03Run, cell *c03Cell, tests map[ssa.Instruction]bool, dfr *c03Frame, dc ssa.CallInstruction, q ssa.Value) (good, unsure bool, why string) {
 	mk := func(targets map[ssa.Instruction]bool, floor *c03Frame) *c03Flow {
 		return &c03Flow{r: r, cell: cell, q: q, qfr: dfr, targets: targets, floor: floor, seen: map[c03FlowKey]bool{},
 			sub: map[c03FlowSub]*c03Frame{}, touch: map[*ssa.Function]int{}, budget: 50000}
@@ -385,6 +386,9 @@ func c03CellHolds(r *c03Run, cell *ssa.Alloc, tests map[ssa.Instruction]bool, df
 	pre := mk(map[ssa.Instruction]bool{dc: true}, dfr)
 	pre.run(dfr, dfr.fn.Blocks[0], 0, 2)
 	state := pre.verdict()
+	if os.Getenv("C03DEBUG") != "" {
+		fmt.Fprintf(os.Stderr, "c03: cellHolds pre verdict=%d arrived=%v\n", state, pre.arrived)
+	}
 	if state == 0 {
 		state = 2
 	}
@@ -396,6 +400,9 @@ func c03CellHolds(r *c03Run, cell *ssa.Alloc, tests map[ssa.Instruction]bool, df
 		}
 	}
 	post.run(dfr, dc.Block(), idx, state)
+	if os.Getenv("C03DEBUG") != "" {
+		fmt.Fprintf(os.Stderr, "c03: cellHolds post arrived=%v\n", post.arrived)
+	}
 	switch post.verdict() {
 	case 1:
 		return true, false, ""
@@ -435,8 +442,13 @@ func c03V1(c *rt.Ctx) {
 				l.fr = f
 				latches = append(latches, l)
 			}
-			if len(odd) > 0 {
-				undecidedWhy = "a length test of a message list in Run compares with something other than a recognised constant"
+			for _, o := range odd {
+				// only a list that can carry the decision from one event to the next matters: a state
+				// variable, or a value carried around the event loop
+				_, isPhi := an.Unwrap(o.x).(*ssa.Phi)
+				if isPhi || r.cellOf(o.x) != nil {
+					undecidedWhy = "a length test of a message list in Run compares with something other than a recognised constant"
+				}
 			}
 		}
 	}
@@ -449,7 +461,7 @@ func c03V1(c *rt.Ctx) {
 		}
 	}
 	// a latch test in a function literal off the call chains cannot be related to the control flow
-	latchCell := func(cell *ssa.Alloc) bool {
+	latchCell := func(cell *c03Cell) bool {
 		for _, st := range r.stores(cell) {
 			for _, dc := range decides {
 				if dfr := dfrs[dc]; dfr != nil {
@@ -533,6 +545,44 @@ func c03V1(c *rt.Ctx) {
 		}
 		return true, false, ""
 	}
+	flagHint := ""
+	{
+		// where no list-length test guards Decide, the decision may be recorded in another form (a boolean or enum
+		// state variable set where Decide is called, or carried around the event loop); the rule does not
+		// follow that form, which is not evidence that the mechanism is absent
+		for _, dc := range decides {
+			for _, in := range an.Instrs(dc.Parent(), false) {
+				st, ok := in.(*ssa.Store)
+				if !ok || r.cellAddr(st.Addr) == nil {
+					continue
+				}
+				// only assignments tied to the Decide call: on the same straight path, and not already on the
+				// way to classify (initialisation, per-event bookkeeping)
+				if !(an.Dominates(st, dc) || an.Dominates(dc, st)) || (r.classify.Parent() == st.Parent() && an.Dominates(st, r.classify)) {
+					continue
+				}
+				if b, ok := st.Val.Type().Underlying().(*types.Basic); ok && b.Info()&(types.IsBoolean|types.IsInteger) != 0 {
+					if _, isConst := an.Unwrap(st.Val).(*ssa.Const); isConst {
+						flagHint = "the decision may be recorded in a flag (a state variable is set to a constant where Decide is called) instead of the qcommit list"
+					}
+				}
+			}
+		}
+		for _, in := range an.Instrs(r.fn, false) {
+			ph, ok := in.(*ssa.Phi)
+			if !ok {
+				continue
+			}
+			if b, ok := ph.Type().Underlying().(*types.Basic); ok && b.Kind() == types.Bool && c03LoopOf(r.fn, ph.Block()) != nil {
+				_, inputs := c03PhiWeb(ph)
+				for _, e := range inputs {
+					if k, isConst := e.(*ssa.Const); isConst && k.Value != nil && k.Value.Kind() == constant.Bool && constant.BoolVal(k.Value) {
+						flagHint = "the decision may be recorded in a boolean carried around the event loop instead of the qcommit list"
+					}
+				}
+			}
+		}
+	}
 	var used []c03Latch
 	for _, dc := range decides {
 		dfr := dfrs[dc]
@@ -548,12 +598,17 @@ func c03V1(c *rt.Ctx) {
 		relevant := latches
 		var dom []c03Latch
 		for _, l := range latches {
-			if c03IsAncestor(l.fr, dfr) && r.dominatesPt(l.fr, l.bin, dfr, dc) {
+			if r.dominatesPt(l.fr, l.bin, dfr, dc) {
 				dom = append(dom, l)
 			}
 		}
 		if len(dom) > 0 {
 			relevant = dom
+		} else if flagHint != "" {
+			for _, key := range []string{"Run Decide→decision latch set to qcommit", "Run decided-test cuts off Decide", "Run decided-test cuts off classify"} {
+				c.Unsure(key, dc.Pos(), "no list-length test is evaluated on every path to Decide; "+flagHint)
+			}
+			continue
 		}
 		var mine []c03Latch
 		why, unsure := "Run has no `len(list) > 0` test of a qcommit-typed list", false
@@ -627,7 +682,18 @@ func c03V1(c *rt.Ctx) {
 		// harmful: 0 no, 1 yes, 2 unknown
 		harmful := func(fr *c03Frame, at ssa.Instruction) int {
 			if !c03IsAncestor(l.fr, fr) {
-				return 1
+				// the test lies in a helper that has returned when the assignment executes
+				if !r.dominatesPt(l.fr, l.bin, fr, at) {
+					return 1
+				}
+				reach, und := r.reachAfter(eng, l.fr, l.bin, fr, at)
+				switch {
+				case und:
+					return 2
+				case reach:
+					return 1
+				}
+				return 0
 			}
 			if top, ok := c03Lift(fr, l.fr, at); ok && top.Block() != l.bin.Block() && !an.CanReach(l.bin.Block(), top.Block(), nil) {
 				return 0 // cannot execute once the test has been evaluated (initialisation before the event loop)
@@ -707,10 +773,10 @@ var _ = constant.MakeBool
 
 // c03InputCell finds the state cell of Run that receives the node's own input value (receive
 // from the <-chan V parameter).
-func c03InputCell(r *c03Run, vt types.Type) *ssa.Alloc {
+func c03InputCell(r *c03Run, vt types.Type) *c03Cell {
 	var param *ssa.Parameter
 	for _, p := range r.fn.Params {
-		if ch, ok := p.Type().Underlying().(*types.Chan); ok && types.Identical(ch.Elem(), vt) {
+		if ch, ok := p.Type().Underlying().(*types.Chan); ok && c03SameType(ch.Elem(), vt) {
 			if param != nil {
 				r.c.Bail("Run: several input value channels")
 			}
@@ -742,7 +808,7 @@ func c03InputCell(r *c03Run, vt types.Type) *ssa.Alloc {
 		}
 		return false
 	}
-	var cell *ssa.Alloc
+	var cell *c03Cell
 	found := false
 	for _, in := range an.Instrs(r.fn, false) {
 		var recv ssa.Value
@@ -903,6 +969,36 @@ func c03V2(c *rt.Ctx) {
 		z  c03ZeroTest
 		at ssa.Instruction
 	}
+	// helperTests: the zero tests that in-package helpers called in fn apply to an argument accepted by
+	// `matches` (the input value handed to `checkInput(v) error`, `usable(v) bool`, ...). The verdict of the
+	// helper is followed by the evaluator (boolean results, nil-ness of error results).
+	helperTests := func(fn *ssa.Function, matches func(arg ssa.Value) bool) []cand {
+		var out []cand
+		for _, in := range an.Instrs(fn, false) {
+			call, ok := in.(*ssa.Call)
+			if !ok || call.Call.IsInvoke() || call.Call.StaticCallee() == nil {
+				continue
+			}
+			g := r.eng.callee(&call.Call)
+			if g == nil || g.Parent() != nil || len(g.Params) != len(call.Call.Args) || c03Static(call, "isZeroVal") != nil {
+				continue
+			}
+			for i, a := range call.Call.Args {
+				if !matches(a) {
+					continue
+				}
+				for _, z := range c03ZeroTestsIn(g) {
+					if an.Resolve(z.tested) != ssa.Value(g.Params[i]) {
+						continue
+					}
+					if _, isInstr := z.v.(ssa.Instruction); isInstr {
+						out = append(out, cand{z: c03ZeroTest{z.v, nil, z.zero}, at: call})
+					}
+				}
+			}
+		}
+		return out
+	}
 	var guardedAt func(fr *c03Frame, anchor, use ssa.Instruction, depth int) (good bool, unsure bool, why string)
 	guardedAt = func(fr *c03Frame, anchor, use ssa.Instruction, depth int) (good bool, unsure bool, why string) {
 		fn := anchor.Parent()
@@ -920,6 +1016,10 @@ func c03V2(c *rt.Ctx) {
 				cands = append(cands, cand{z: z, at: at})
 			}
 		}
+		cands = append(cands, helperTests(fn, func(a ssa.Value) bool {
+			same, _ := sameVersion(a, anchor)
+			return same
+		})...)
 		// a function literal whose boolean result is decided by a zero test of the variable
 		for _, in := range an.Instrs(fn, false) {
 			call, ok := in.(*ssa.Call)
@@ -1077,6 +1177,10 @@ func c03V2(c *rt.Ctx) {
 						tests = append(tests, at)
 					}
 				}
+			}
+			for _, cd := range helperTests(vfr.fn, func(a ssa.Value) bool { tv, _ := r.eng.resolve(vfr, a); return tv == rv }) {
+				facts.val(cd.z.v, c03Bool(cd.z.zero))
+				tests = append(tests, cd.at)
 			}
 			tri, why := c03No, "no zero-value test of the input value precedes the broadcast"
 			for _, at := range tests {
@@ -1261,6 +1365,12 @@ var c03Mutants = []Mutant{
 	{ID: "C03-V3-decided-any-value", File: c03F, Expect: "V3|message's value",
 		Old: "\tv := msg.Value()\n\tcommits := filterMsgs(msg.Justification(), MsgCommit, msg.Round(), &v, nil, nil)",
 		New: "\tcommits := filterMsgs(msg.Justification(), MsgCommit, msg.Round(), nil, nil, nil)"},
+	{ID: "C03-V3-decided-inline-any-value", File: c03F, Expect: "V3|message's value",
+		Old: "\t\treturn isJustifiedDecided(d, msg)", New: "\t\treturn len(filterMsgs(msg.Justification(), MsgCommit, msg.Round(), nil, nil, nil)) >= d.Quorum()"},
+	{ID: "C03-V3-decided-inline-counts-prepares", File: c03F, Expect: "V3|counts COMMITs",
+		Old: "\t\treturn isJustifiedDecided(d, msg)", New: "\t\tdv := msg.Value()\n\n\t\treturn len(filterMsgs(msg.Justification(), MsgPrepare, msg.Round(), &dv, nil, nil)) >= d.Quorum()"},
+	{ID: "C03-V3-decided-inline-fplus1", File: c03F, Expect: "V3|isJustified DECIDED",
+		Old: "\t\treturn isJustifiedDecided(d, msg)", New: "\t\tdv := msg.Value()\n\n\t\treturn len(filterMsgs(msg.Justification(), MsgCommit, msg.Round(), &dv, nil, nil)) >= d.Faulty()+1"},
 	{ID: "C03-V3-decided-not-checked", File: c03F, Expect: "V3|isJustified DECIDED",
 		Old: "\t\treturn isJustifiedDecided(d, msg)", New: "\t\treturn true"},
 	{ID: "C03-V3-decided-weakened", File: c03F, Expect: "V3|isJustified DECIDED",
